@@ -8,6 +8,7 @@
 
    Event records (props/C54.py):
      [k |-> "set", c, name, host, port,             \* response from host:port carries Set-Cookie number c
+                   hostid, domid,                   \* host and Domain value exactly as written (atomic strings)
                    hasdom, dom,                     \* Domain attribute present / its raw value (with leading dot)
                    haspath, path,                   \* Path attribute present / its value
                    expired]                         \* BOOLEAN: Max-Age <= 0 or Expires in the past
@@ -60,8 +61,9 @@ PathRel(r, c) == IF IsPrefix(c, r) THEN "string_prefix" ELSE "unrelated"
 CkDom(s) == IF s.hasdom THEN StripDot(s.dom) ELSE s.host
 IsForeign(s) == s.hasdom /\ ~DomainMatch(s.host, StripDot(s.dom))
 \* which stored cookie a Set-Cookie expires: the one the same host set earlier on the same port with the same name
-\* and the same Domain and Path attributes as written (the weakest reading of "an expired cookie")
-IdKey(s) == <<s.name, s.host, s.port, s.hasdom, s.dom, s.haspath, s.path>>
+\* and the same Domain and Path attributes, host and attributes exactly as written (the weakest reading of "an
+\* expired cookie": case or leading-dot variants are not demanded to denote the same cookie)
+IdKey(s) == <<s.name, s.hostid, s.port, s.hasdom, s.domid, s.haspath, s.path>>
 
 Known(m, c) == c \in 1..Len(m.ck)
 MinOf(S) == CHOOSE x \in S : \A y \in S : x <= y
